@@ -132,6 +132,21 @@ def main():
                 print(json.dumps({"reproduced": True, "detail": r, "tried": tried,
                                   "input": dict(kernel=kernel, resample=resample, clustering=clustering, blobs=blobs, n_total=n_total)}))
                 return
+        # array-valued blobs (a vector per particle): every posterior() option combination returns them row-aligned, with their shape
+        tried += 1
+
+        def llvecblob(x):
+            return ll(x), np.array([x[0], x[1], x[0] * x[1]])
+        s = Sampler(pt, llvecblob, blobs_dtype=float, n_dim=2, n_particles=32, random_state=8, output_dir=tmp)
+        s.run(n_total=96, progress=False)
+        for rs, tr in itertools.product((False, True), repeat=2):
+            out = s.posterior(resample=rs, trim_importance_weights=tr, return_blobs=True)
+            x, b = out[0], np.asarray(out[3])
+            want = np.array([[xi[0], xi[1], xi[0] * xi[1]] for xi in x])
+            if b.shape != want.shape or not np.array_equal(b, want):
+                print(json.dumps({"reproduced": True, "tried": tried, "detail": f"posterior(resample={rs}, trim={tr}, return_blobs=True) with a 3-vector blob per particle: blobs of shape "
+                                  f"{b.shape} for {len(x)} samples (expected {want.shape}); the rows do not carry their particles' blobs", "input": {"blob": "vector(3)", "resample": rs, "trim": tr}}))
+                return
         # a history of more than 2**16 particles (production-size run, vectorised likelihood)
         tried += 1
         s = Sampler(pt, llv, n_dim=2, n_particles=4096, random_state=6, clustering=False, vectorize=True, output_dir=tmp)
